@@ -1,0 +1,42 @@
+//go:build verif
+
+package state
+
+// Contracts for the deductive checks in /verif (read by /verif/govc; comment-only, no code).
+
+//@ import types github.com/tendermint/tendermint/types
+//@ import tmtime github.com/tendermint/tendermint/types/time
+
+// ASSUMED: the weighted median of a commit's timestamps is a function of the commit and validator set objects
+// (neither is mutated while a block is validated); its computation is under contract separately (WeightedMedian).
+//@ func MedianTime
+//@   purefn
+//@   requires wf: len(validators.Validators) <= 2147483647
+//@   loop 1 invariant idx: 0 <= rangeindex + 1 && rangeindex + 1 <= len(commit.Signatures) && len(weightedTimes) == len(commit.Signatures)
+
+// Validation is EXACT: a block is accepted exactly when every listed comparison with the node's own state holds.
+// lastBasicOK / lastCommitVerified witness the verdicts of Block.ValidateBasic and VerifyCommit on this very block and
+// this very last commit (arguments of VerifyCommit are pinned by the atcall clause).
+//@ func validateBlock
+//@   requires wf: block != nil && state.Validators != nil && state.NextValidators != nil && state.LastValidators != nil && len(state.Validators.Validators) <= 2147483647 && len(state.LastValidators.Validators) <= 2147483647
+//@   requires wfl: wfPowers(state.LastValidators) && wfCached(state.LastValidators)
+//@   requires ghosts: lastCommitVerified == 0
+//@   atcall ValidatorSet.VerifyCommit args: arg0 == state.LastValidators && arg1 == state.ChainID && arg2 == state.LastBlockID && arg3 == block.Header.Height - 1 && arg4 == block.LastCommit
+//@   ensures exact: result == nil <==> (lastBasicOK == ref(block) &&
+//@     | block.Header.Version.App == state.Version.Consensus.App && block.Header.Version.Block == state.Version.Consensus.Block &&
+//@     | block.Header.ChainID == state.ChainID &&
+//@     | (state.LastBlockHeight == 0 ==> block.Header.Height == state.InitialHeight) &&
+//@     | (state.LastBlockHeight > 0 ==> block.Header.Height == state.LastBlockHeight + 1) &&
+//@     | block.Header.LastBlockID == state.LastBlockID &&
+//@     | block.Header.AppHash == state.AppHash &&
+//@     | block.Header.ConsensusHash == types.HashConsensusParams(state.ConsensusParams) &&
+//@     | block.Header.LastResultsHash == state.LastResultsHash &&
+//@     | block.Header.ValidatorsHash == types.ValidatorSet.Hash(state.Validators) &&
+//@     | block.Header.NextValidatorsHash == types.ValidatorSet.Hash(state.NextValidators) &&
+//@     | (block.Header.Height == state.InitialHeight ==> len(block.LastCommit.Signatures) == 0) &&
+//@     | (block.Header.Height != state.InitialHeight ==> lastCommitVerified == ref(block.LastCommit)) &&
+//@     | len(block.Header.ProposerAddress) == 20 && idxOf(state.Validators, block.Header.ProposerAddress) >= 0 &&
+//@     | block.Header.Height >= state.InitialHeight &&
+//@     | (block.Header.Height > state.InitialHeight ==> (block.Header.Time > state.LastBlockTime && block.Header.Time == MedianTime(block.LastCommit, state.LastValidators))) &&
+//@     | (block.Header.Height == state.InitialHeight ==> block.Header.Time == state.LastBlockTime) &&
+//@     | types.EvidenceData.ByteSize(&block.Evidence) <= state.ConsensusParams.Evidence.MaxBytes)
